@@ -18,7 +18,7 @@ from gen import members
 RULE = ("exhaustive: for each of the 20 configurations, all LC classes x all coupled pairs x all 36 pairs of local "
         "Cliffords (mod Paulis) -> breadth-first distance of every class from the product class; compared with (i) the "
         "cost column and true two-qubit count of every table line (5962) and (ii) the two-qubit count of the delivered "
-        "preparation circuit for the class representative and k constructed members (k=1 quick, 4 thorough). Plus "
+        "preparation circuit for the class representative, a random graph of the orbit in graph form and k constructed members (k=1 quick, 4 thorough). Plus "
         "Hypothesis-generated competitor circuits with k two-qubit gates on coupled pairs (metamorphic: compressed "
         "cost <= k). A case is one (configuration, class[, member]) or one competitor circuit; non-trivial = class at "
         "distance >= 1 on a connectivity that is not all-to-all; distinct by (n, connectivity, class, member group).")
@@ -173,6 +173,9 @@ def shard_config(arg):
             rng = fw.rng_for("c05m", seed, n, name, k, i)
             g, _ = members.member(n, orbit, rng)
             subjects.append((f"member{i}", g))
+        # the same class presented literally in graph form, for a graph of the orbit that need not be edge-minimal
+        grng = fw.rng_for("c05g", seed, n, name, k)
+        subjects.append(("graph-form", lc.graph_state_gens(n, members.random_lc_walk(n, orbit, grng))))
         for label, gens in subjects:
             try:
                 c, ops = prep_cost(n, name, gens)
